@@ -167,6 +167,42 @@ def stats(env):
     env.eq('identical trajectories: zero Max', same['Max'], 0); env.eq('identical trajectories: zero RMSE', same['RMSE'], 0)
 
 
+@bounded('C19.geodesic_loss_float', functions=[f'{LOSS}:geodesic_loss'])
+def geo_float(rng, tier):
+    """real code, float32 and float64: y = Exp(delta * axis) @ x with a known angle delta, log-uniform from far below sqrt(eps) up to pi:
+    the returned angle is delta within 32 eps (absolute) + 128 eps (relative), in both argument orders and under each reduction - the
+    angle is well conditioned as |Log|, so nothing is lost at small angles"""
+    import torch, pypose as pp, math
+    N = 300 if tier == 'quick' else 5000
+    fails = []; evals = 0; samples = []
+    g = torch.Generator().manual_seed(rng.randrange(1 << 30))
+    for dt in (torch.float64, torch.float32):
+        eps = torch.finfo(dt).eps
+        worst = 0.0
+        for k in range(N):
+            delta = 10 ** rng.uniform(math.log10(eps) + 0.5, math.log10(3.1)) if k % 5 else rng.uniform(0.05, 3.1)
+            ax = torch.randn(3, dtype=torch.float64, generator=g); ax = ax / ax.norm()
+            x = pp.randn_SO3(dtype=torch.float64, generator=g) if k % 3 else pp.identity_SO3(dtype=torch.float64)
+            y = pp.so3(delta * ax).Exp() @ x
+            # the inputs are rounded to dt; their true relative angle moves by at most a few eps
+            xd, yd = pp.SO3(x.tensor().to(dt)), pp.SO3(y.tensor().to(dt))
+            true = float((pp.SO3(yd.tensor().double()) @ pp.SO3(xd.tensor().double()).Inv()).Log().norm())
+            vals = dict(xy=float(pp.geodesic_loss(xd[None], yd[None], reduction='none')), yx=float(pp.geodesic_loss(yd[None], xd[None], reduction='none')),
+                        mean=float(pp.geodesic_loss(xd[None], yd[None], reduction='mean')), sum=float(pp.geodesic_loss(xd[None], yd[None], reduction='sum')))
+            evals += 1
+            tol = 32 * eps + 128 * eps * true
+            err = max(abs(v - true) for v in vals.values())
+            worst = max(worst, err / tol)
+            if not err <= tol:
+                fails.append(dict(clause='geodesic_loss_is_the_angle_in_floating_point', signature=f'{str(dt).split(".")[-1]}/angle~1e{int(math.floor(math.log10(delta)))}',
+                                  angle=true, returned=vals, tol=tol))
+        samples.append(dict(dtype=str(dt), worst_error_over_tolerance=worst))
+    uniq = {}
+    for f in fails: uniq.setdefault(f['signature'], f)
+    return dict(evaluations=evals, distinct_nontrivial=evals, rule='known relative angles log-uniform in [3 eps, 3.1], random axes and bases; distinct by seed',
+                bound=f'{N} pairs per dtype', failures=list(uniq.values())[:6], samples=samples)
+
+
 @bounded('C19.metrics_and_splines', functions=[f'{APE}:ape', f'{APE}:rpe', f'{SPL}:bspline', f'{SPL}:chspline'])
 def numeric(rng, tier):
     """real code: ape/rpe zero on identical trajectories, rpe left-invariant, ape invariant under rigid/similarity transform of the
